@@ -84,14 +84,27 @@ def run():
     for i, l in enumerate(lines):
         r = json.loads(l)
         ins = r["progs"]["opt"]["insns"]
-        j = next((q for q, x in enumerate(ins) if x["op"] == "Alt"), None)
-        if j is not None:
-            ins[j]["secondary"] = j + 1                  # the alternative jumps to the wrong place
+        j = next((q for q, x in enumerate(ins) if x["op"] == "ByteSeq"), None)
+        if j is not None and any(b for b in r.get("bfirst", [])):
+            ins[j]["bytes"] = [b + 1 for b in ins[j]["bytes"]]     # the program matches another literal
             lines[i] = json.dumps(r)
             break
     cor = os.path.join(work, "vm_corrupt.ndjson")
     open(cor, "w").write("\n".join(lines) + "\n")
-    expect("JudgeVM (one Alt target of a dumped program changed)", ok, vm_mismatches(cor))
+    expect("JudgeVM (one literal of a dumped program changed)", ok, vm_mismatches(cor))
+    # a program that loops where the engine finished: the machine spends its fuel, the engine's step count shows it did not
+    lines = open(paths["vm"]).read().splitlines()
+    for i, l in enumerate(lines):
+        r = json.loads(l)
+        ins = r["progs"]["opt"]["insns"]
+        j = next((q for q, x in enumerate(ins) if x["op"] == "Jump"), None)
+        if j is not None and "esteps" in r:
+            ins[j]["target"] = j                                   # a jump to itself
+            lines[i] = json.dumps(r)
+            break
+    cor = os.path.join(work, "vm_corrupt2.ndjson")
+    open(cor, "w").write("\n".join(lines) + "\n")
+    expect("JudgeVM (a dumped program made to loop: the machine spends its fuel where the engine finished)", ok, vm_mismatches(cor))
 
     # 3b. the compile chain: recorded trees against IRSem / OptPasses / StartPred / Emit
     def ir_lines(path):
